@@ -13,7 +13,16 @@ ContextWindowDataLoader run on real temporary directories built from TLC's lengt
 (num_workers=0, values encode (utterance, frame)); every run (feed / yield / exhausted / stop +
 reported length) must be accepted by BatchingTrace, every collated batch (projected to provenance)
 by BatchingCollateTrace.  spec -> code: predicted lengths, accepted batch sequences of sequential
-loaders, the window table, same (seed, epoch) => same batches."""
+loaders, the window table, same (seed, epoch) => same batches.
+
+Histories (BatchingDir.tla): the data directory is state, constructing a loader is an action that
+reads it.  TLC exports histories "loader over rendition r1, [files of r1 regenerated,] loader over
+rendition r2" of one directory holding two renditions of the same utterance ids; each is replayed on
+ONE real directory path (feat/ vs feat_b/ of a SpectDataSet directory, file prefixes a_ / b_ of a
+LangDataSet directory) with real loaders built one after the other in this process, and the recorded
+history (what was written, the real idx2bucket / bucket2size of every loader, feed / yield / stop
+events) must be accepted by BatchingDirTrace, which reads every loader's lengths off ITS OWN
+directory state: the length classes of a loader must be those of the data it serves."""
 import os
 import sys
 
@@ -98,13 +107,14 @@ def make_loader(cfg, pool, init_epoch=0):
         return B.quiet(cls, d, p, shuffle=cfg["shuffle"], batch_first=cfg["bf"],
                        sort_batch=cfg["sort"], init_epoch=init_epoch, seed=cfg["seed"],
                        suppress_alis=cfg["salis"], suppress_uttids=cfg["suttids"],
-                       tokens_only=cfg["tokens_only"], num_workers=0), Rs
+                       tokens_only=cfg["tokens_only"], num_workers=0, **cfg.get("extra", {})), Rs
     if cfg["kind"] == "lang":
         p = D.LangDataLoaderParams(batch_size=cfg["bsz"], drop_last=cfg["drop"],
                                    num_length_buckets=cfg["nbreq"], size_batch_by_length=cfg["dyn"])
         return B.quiet(D.LangDataLoader, os.path.join(d, "ref"), p, shuffle=cfg["shuffle"],
                        batch_first=cfg["bf"], sort_batch=cfg["sort"], init_epoch=init_epoch,
-                       seed=cfg["seed"], suppress_uttids=cfg["suttids"], num_workers=0), Rs
+                       seed=cfg["seed"], suppress_uttids=cfg["suttids"], num_workers=0,
+                       **cfg.get("extra", {})), Rs
     p = D.ContextWindowDataLoaderParams(batch_size=cfg["bsz"], drop_last=cfg["drop"],
                                         context_left=cfg["left"], context_right=cfg["right"],
                                         reverse=cfg["rev"])
@@ -301,6 +311,165 @@ def run_loader(ctx, cfg, pool, spec, tid, out):
              "the first pass through epoch 1")
     if cfg["shuffle"] and n >= 4 and same_batches(epochs[0], epochs[1]):
         ctx.count("informational_shuffled_epochs_identical")
+
+
+# ----------------------------------------------------------------------------- histories of loaders
+HSITE = {"spect": "SpectDataLoader", "lang": "LangDataLoader"}
+
+
+def history_flags(rng, kind):
+    cfg = random_flags(rng, kind)
+    cfg.pop("wrapper", None)
+    cfg.update(variant="lang" if kind == "lang" else "noali", tokens_only=True, salis=True)
+    return cfg
+
+
+def run_history(rec, kind, root, tid, rng=None, flags=None):
+    """Replay one exported history on ONE real directory path.  rec: the "hist" record of BatchingDir
+    (n, dir0, steps).  Returns (history trace for BatchingDirTrace, collate traces, failure, flags used,
+    per-loader notes)."""
+    n = rec["n"]
+    hd = B.HistDir(root, kind, n)
+    for r in sorted(rec["dir0"]):
+        hd.write(r, rec["dir0"][r])
+    names = _names(n)
+    events, ctraces, used, notes = [], [], [], []
+    nopen = 0
+    for step in rec["steps"]:
+        r = step["r"]
+        if step["op"] == "write":
+            hd.write(r, step["lens"])
+            events.append(dict(op="write", r=r, lens=[int(x) for x in step["lens"]], a=0, items=[]))
+            continue
+        cfg = dict(flags[nopen]) if flags is not None else history_flags(rng, kind)
+        cfg.update(lens=list(hd.lens[r]), nbreq=step["nbreq"], bsz=step["bsz"], dyn=step["dyn"], drop=step["drop"],
+                   extra=hd.extra(r))
+        used.append(dict((k, v) for k, v in cfg.items() if k not in ("lens", "extra")))
+        hd.current = r
+        where = "loader %d (%s, rendition %s = %r)" % (nopen + 1, describe(cfg), hd.extra(r), hd.lens[r])
+        try:
+            loader, Rs = make_loader(cfg, hd)
+        except MachineryError:
+            raise
+        except Exception as ex:
+            return None, ctraces, "constructing %s raised %s: %r" % (where, type(ex).__name__, ex), used, notes
+        if len(loader.dataset) != n:
+            return None, ctraces, "%s: the data set holds %d utterances, the directory %d" % (
+                where, len(loader.dataset), n), used, notes
+        i2b, b2s, bucketed = bucket_maps(loader, n, cfg["bsz"])
+        evs = []
+        loader.batch_sampler.sampler = B.RecordingSampler(loader.batch_sampler.sampler, evs)
+        _, ctr, failed = run_epoch(cfg, loader, Rs, evs, names, "%s-l%d" % (tid, nopen))
+        if failed:
+            return None, ctraces, "%s: %s" % (where, failed), used, notes
+        ctraces += ctr
+        seg = B.abstract_trace(tid, n, evs, i2b, b2s, cfg["drop"], None, cfg["nbreq"], cfg["bsz"], cfg["dyn"])
+        if sorted(seg["ord"]) != list(range(n)):
+            return None, ctraces, "%s: the epoch fed the indices %r" % (where, seg["ord"]), used, notes
+        events.append(dict(op="open", r=r, ord=seg["ord"], nbreq=cfg["nbreq"], bsz=cfg["bsz"], dyn=bool(cfg["dyn"]),
+                           drop=bool(cfg["drop"]), i2b=seg["i2b"], size=seg["size"], a=0, items=[], lens=[]))
+        events += seg["events"]
+        notes.append(dict(i2b=[i2b.get(i) for i in range(n)], size=[b2s.get(j) for j in range(len(b2s))],
+                          bucketed=bucketed, spec_i2b=step["i2b"], spec_size=step["size"], lens=list(hd.lens[r])))
+        nopen += 1
+    tr = dict(tid=tid, n=n, dir=dict((r, [int(x) for x in v]) for r, v in rec["dir0"].items()), events=events)
+    return tr, ctraces, None, used, notes
+
+
+def classify_history(tr, v, notes):
+    """label a rejected history (labelling only; the verdict is TLC's)"""
+    why = v["why"]
+    ev = v.get("event") or {}
+    if why.startswith("invariant"):
+        name = why.split()[1]
+        if name in ("ClassesOfServedData", "LengthMonotone", "BatchesArePure", "BatchesPureOnDisk"):
+            k = sum(1 for e in tr["events"][:v["matched"]] if e["op"] == "open")
+            if ev.get("op") == "open" and k >= 2:
+                # are the classes of this loader those of the data an EARLIER loader of the history served?
+                cur = notes[k - 1]
+                for old in notes[:k - 1]:
+                    if cur["i2b"] == old["i2b"] and all(
+                            old["lens"][i] >= old["lens"][j] or cur["i2b"][i] <= cur["i2b"][j]
+                            for i in range(len(old["lens"])) for j in range(len(old["lens"]))):
+                        return "length-classes-of-an-earlier-loaders-data"
+            return "length-classes-mixed"
+        return classify_bucket(tr, v)
+    if ev.get("op") == "open":
+        return "loader-parameters"
+    return classify_bucket(tr, v)
+
+
+def pick_histories(recs, rng, num):
+    """distinct (directory, steps) histories; mostly those in which the second loader's data differs from
+    what the first one read and more than one length class is requested"""
+    seen, good, rest = set(), [], []
+    for r in sorted(recs, key=lambda r: repr((r["n"], sorted(r["dir0"].items()), r["steps"]))):
+        key = repr((r["n"], sorted(r["dir0"].items()), r["steps"]))
+        if key in seen:
+            continue
+        seen.add(key)
+        opens = [s for s in r["steps"] if s["op"] == "open"]
+        differs = len(opens) >= 2 and opens[0]["lens"] != opens[-1]["lens"]
+        (good if differs and r["n"] >= 2 and opens[-1]["nbreq"] >= 2 else rest).append(r)
+    k = min(len(good), (num * 3) // 4)
+    return rng.sample(good, k) + rng.sample(rest, min(len(rest), num - k))
+
+
+def run_histories(ctx, recs, rng):
+    import shutil
+
+    picks = pick_histories(recs, rng, 160 if ctx.quick else 1500)
+    root = ctx.subdir("hist")
+    traces, ctraces, meta, cmeta, info = [], [], {}, {}, {}
+    for i, rec in enumerate(picks):
+        kind = "spect" if i % 2 == 0 else "lang"
+        tid = "hist-%d" % i
+        d = os.path.join(root, "h%d" % i)
+        case = dict(type="history", rec=dict(n=rec["n"], dir0=rec["dir0"], steps=rec["steps"]), kind=kind)
+        try:
+            tr, ctr, failed, used, notes = run_history(rec, kind, d, tid, rng=rng)
+        finally:
+            shutil.rmtree(d, ignore_errors=True)
+        case["flags"] = used
+        opens = [s for s in rec["steps"] if s["op"] == "open"]
+        ctx.case(key=("history", kind, repr(rec["dir0"]), repr(rec["steps"]), repr(used)),
+                 nontrivial=len(opens) >= 2 and opens[0]["lens"] != opens[-1]["lens"] and opens[-1]["nbreq"] >= 2,
+                 sample=dict(history=dict(kind=kind, dir0=rec["dir0"],
+                                          steps=[(s["op"], s["r"], s["lens"], s["nbreq"], s["i2b"]) for s in rec["steps"]]))
+                 if i == 3 else None)
+        if failed:
+            ctx.violation(dict(site=HSITE[kind], kind="exception"), "history %r: %s" % (rec["steps"], failed), case)
+            continue
+        for nt in notes:
+            if nt["bucketed"] and nt["i2b"] != nt["spec_i2b"]:
+                ctx.count("informational_history_assignment_differs_from_Boundaries")
+        traces.append(tr)
+        info[tid] = (case, notes, kind)
+        for c in ctr:
+            cmeta[c["tid"]] = (None, HSITE[kind], "history %s" % tid, case)
+        ctraces += ctr
+    ctx.count("loader_histories", len(picks))
+    validate_history(ctx, traces, info, "BatchingDirTrace/histories")
+    validate_collate(ctx, ctraces, cmeta, "BatchingCollateTrace/histories")
+    return traces
+
+
+def validate_history(ctx, traces, info, name):
+    verdicts = _tracecheck.validate(ctx, name, B.DTRACE_MOD, B.DTRACE_CFG, traces, chunk=2000)
+    for tr in traces:
+        v = verdicts[tr["tid"]]
+        if v is None:
+            continue
+        case, notes, kind = info[tr["tid"]]
+        k = sum(1 for e in tr["events"][:max(v["matched"], 1)] if e["op"] == "open")
+        ctx.violation(dict(site=HSITE[kind], kind=classify_history(tr, v, notes)),
+                      "history over one directory (initially %r; steps %r): TLC rejects the recorded run at event %d "
+                      "%r (%s), i.e. at loader %d of the history, whose real idx2bucket is %r over the lengths %r" % (
+                          tr["dir"], [(e["op"], e["r"], e.get("lens")) for e in tr["events"] if e["op"] in ("write", "open")],
+                          v["matched"], v.get("event"), v["why"], k,
+                          notes[k - 1]["i2b"] if 0 < k <= len(notes) else None,
+                          notes[k - 1]["lens"] if 0 < k <= len(notes) else None), case)
+    ctx.traces += len(traces)
 
 
 def describe(cfg):
@@ -500,8 +669,12 @@ def run(ctx):
                 "with n <= 3 plus a seeded sample) with renamed indices / keys; loaders over a real directory "
                 "per exported length vector x seeded (buckets, batch size, dynamic, drop_last, shuffle, "
                 "sort_batch, batch_first, suppress_*) configurations, two epochs + twin loader; collation "
-                "functions on exported batches; the complete window table; non-trivial = more than one batch "
-                "or a padded / sorted / incomplete batch, distinct by the full configuration")
+                "functions on exported batches; the complete window table; exported histories of two loaders "
+                "over one directory with two renditions of the same utterances (a seeded sample, mostly those "
+                "whose second loader serves other lengths than the first read) replayed on one real path; "
+                "non-trivial = more than one batch "
+                "or a padded / sorted / incomplete batch (histories: the second loader's data differs and more "
+                "than one length class is requested), distinct by the full configuration")
     ctx.assumptions += [
         "utterance lengths >= 1 (a zero-length utterance makes the dynamic batch size undefined: x * 0 <= Y * B)",
         "num_workers = 0, CPU; feature values are small integers (exact in float32)",
@@ -509,6 +682,8 @@ def run(ctx):
         "(the batch sampler's own order is not observable after sorting; it is checked on BucketBatchSampler "
         "directly and on unsorted loaders)",
         "non-distributed (C13 covers the split across ranks)",
+        "histories: the files of a rendition are regenerated only between loaders, never while a loader is "
+        "running an epoch",
     ]
     recs = B.run_design(ctx)
     rng = ctx.rng
@@ -602,10 +777,12 @@ def run(ctx):
     ctx.count("loader_collated_batches", len(out["collate"]))
     validate_bucket(ctx, out["bucket"], out["meta"], "BatchingTrace/loaders")
     validate_collate(ctx, out["collate"], out["meta"], "BatchingCollateTrace/loaders")
-    selftest(ctx, traces, ctr)
+    # --- histories of loaders over one directory (spec -> code replay, validated code -> spec)
+    htraces = run_histories(ctx, recs["hist"], rng)
+    selftest(ctx, traces, ctr, htraces)
 
 
-def selftest(ctx, btraces, ctraces):
+def selftest(ctx, btraces, ctraces, htraces):
     """Binding self-test: corrupted copies of accepted traces must be rejected."""
     import copy
     import shutil
@@ -624,13 +801,35 @@ def selftest(ctx, btraces, ctraces):
     row = next(r for r in c["out"]["feats"] if 0 in r)
     row[row.index(0)] = 7
     c["tid"] = "self-dirty-padding"
+    # a history whose second loader keeps the first loader's length classes although it serves other data
+    d = None
+    for t in htraces:
+        opens = [e for e in t["events"] if e["op"] == "open"]
+        if len(opens) != 2 or opens[0]["ord"] != opens[1]["ord"] or opens[0]["size"] != opens[1]["size"]:
+            continue
+        disk = dict((r, list(v)) for r, v in t["dir"].items())
+        for e in t["events"]:
+            if e["op"] == "write":
+                disk[e["r"]] = list(e["lens"])
+        served = [disk[opens[1]["r"]][u] for u in opens[1]["ord"]]  # what the second loader reads, by feed position
+        stale = opens[0]["i2b"]
+        if any(served[p] < served[q] and stale[p] > stale[q] for p in range(t["n"]) for q in range(t["n"])):
+            d = copy.deepcopy(t)
+            o = [e for e in d["events"] if e["op"] == "open"]
+            o[1]["i2b"] = list(o[0]["i2b"])
+            d["tid"] = "self-stale-length-classes"
+            break
+    if d is None:
+        raise MachineryError("self-test: no history to corrupt")
     sub = type(ctx)(ctx.prop, ctx.tier, ctx.seed, ctx.level)
     try:
         v1 = _tracecheck.validate(sub, "BatchingTrace/selftest", B.TRACE_MOD, B.TRACE_CFG, [a, b])
         v2 = _tracecheck.validate(sub, "BatchingCollateTrace/selftest", B.CTRACE_MOD, B.CTRACE_CFG, [c])
+        v3 = _tracecheck.validate(sub, "BatchingDirTrace/selftest", B.DTRACE_MOD, B.DTRACE_CFG, [d])
     finally:
         shutil.rmtree(sub.workdir, ignore_errors=True)
     v1.update(v2)
+    v1.update(v3)
     missed = [t for t, x in v1.items() if x is None]
     if missed:
         raise MachineryError("self-test: corrupted traces were accepted: %r" % missed)
@@ -677,6 +876,15 @@ def replay(ctx, case):
         run_loader(ctx, cfg, DirPool(ctx), None, "replay", out)
         validate_bucket(ctx, out["bucket"], out["meta"], "BatchingTrace/replay")
         validate_collate(ctx, out["collate"], out["meta"], "BatchingCollateTrace/replay")
+    elif t == "history":
+        tr, ctr, failed, used, notes = run_history(case["rec"], case["kind"], ctx.subdir("hist_replay"), "replay",
+                                                   flags=case["flags"])
+        if failed:
+            ctx.violation(dict(site=HSITE[case["kind"]], kind="exception"), failed, case)
+            return
+        validate_history(ctx, [tr], {"replay": (case, notes, case["kind"])}, "BatchingDirTrace/replay")
+        validate_collate(ctx, ctr, dict((c["tid"], (None, HSITE[case["kind"]], "replay", case)) for c in ctr),
+                         "BatchingCollateTrace/replay")
     else:
         raise MachineryError("unknown replay case type %r" % t)
     print("replay %s: %d violation(s)" % (t, len(ctx.violations)))
